@@ -95,6 +95,11 @@ def processError (v : Version) (root : Node) (dns : Option String) : Outcome :=
       | some fi => .fault fi
       | none => .malformedFault
 
+/-- statuses for which an empty reply is "no content, no error" -/
+def emptyOkStatuses : List Nat := [201, 202]
+/-- the one status that may be a success with content -/
+def okStatus : Nat := 200
+
 def triage (v : Version) (status : Nat) (b : Body) : Outcome :=
   match b with
   | .empty => if status = 201 ∨ status = 202 then .returnNone else
